@@ -187,7 +187,7 @@ class Stmts:
             a = self.exec_block(node.body, s.fork().add(tv))
             b = self.exec_block(node.orelse, s.fork().add(z3.Not(tv)))
             return a + b
-        return self.lift(self.ev(node.test, st), k)
+        return self.lift(self.ev_bool(node.test, st), k)
 
     def st_Assert(self, node, st):
         def k(c, s):
@@ -368,6 +368,10 @@ class Stmts:
                 elif isinstance(n, ast.Call) and isinstance(n.func, ast.Attribute) and n.func.attr in (
                         'append', 'add', 'update', 'pop', 'extend', 'setdefault', 'remove', 'discard'):
                     tgt(n.func.value)
+                elif isinstance(n, ast.Call) and ((isinstance(n.func, ast.Attribute) and n.func.attr == '__setattr__') or
+                                                  (isinstance(n.func, ast.Name) and n.func.id == 'setattr')) and n.args \
+                        and isinstance(n.args[0], ast.Name):
+                    add('$attrs:' + n.args[0].id)
                 elif isinstance(n, ast.FunctionDef):
                     add(n.name)
         return names
@@ -433,6 +437,9 @@ class Stmts:
     def eval_invariant(self, inv_lam, i_term, st: State, extra=None):
         names = [p.arg for p in inv_lam.args.args]
         env = {}
+        for k2, v2 in st.env.items():
+            if k2.startswith('$'):
+                env[k2] = v2
         for n in names:
             if n == 'it':
                 env[n] = VInt(i_term)
@@ -469,6 +476,8 @@ class Stmts:
             for n in assigned:
                 if n in s.env and s.env[n] is not None:
                     s.env[n] = self.havoc(s.env[n], f'{n}_{tag}', s)
+                elif n.startswith('$attrs:'):
+                    s.env[n] = self.havoc(VMapB(th.empty_set, th.dflt_map), f'attrs_{tag}', s)
                 elif n not in s.env:
                     s.env[n] = None     # possibly unbound
             return s
@@ -671,15 +680,64 @@ class Stmts:
         raise OutOfSubset(f'operator method {name}', node)
 
     def star_display(self, node, st, is_list):
-        """(*a, b, *c): concatenation of statically known tuples."""
+        """(*a, b, *c): concatenation; statically known parts stay static, symbolic parts go through a list builder."""
         def k(vs, s):
-            items = []
+            if all(isinstance(v, VTuple) for e, v in zip(node.elts, vs) if isinstance(e, ast.Starred)):
+                items = []
+                for e, v in zip(node.elts, vs):
+                    if isinstance(e, ast.Starred):
+                        items.extend(v.items)
+                    else:
+                        items.append(v)
+                return [(VTuple(tuple(items), is_list), s)]
+            th = self.th
+            b = VListB(th.dflt_seq, z3.IntVal(0))
+            results = [(b, s)]
             for e, v in zip(node.elts, vs):
-                if isinstance(e, ast.Starred):
-                    if not isinstance(v, VTuple):
-                        raise OutOfSubset('starred display of a symbolic sequence', node)
-                    items.extend(v.items)
+                nxt = []
+                for cur, s2 in results:
+                    if isinstance(cur, Raised):
+                        nxt.append((cur, s2))
+                        continue
+                    if not isinstance(e, ast.Starred):
+                        nxt.append((VListB(z3.Store(cur.arr, cur.n, self.toVal(v, s2)), cur.n + 1), s2))
+                        continue
+                    srcs = self.consume(v, s2) if isinstance(v, VGen) else [(v, s2)]
+                    for g, s3 in srcs:
+                        if isinstance(g, Raised):
+                            nxt.append((g, s3))
+                            continue
+                        if isinstance(g, VGen):
+                            mats = self.materialize(g, 'list', s3, node)
+                        else:
+                            mats = [(g, s3)]
+                        for m, s4 in mats:
+                            if isinstance(m, Raised):
+                                nxt.append((m, s4))
+                                continue
+                            src = self.itersrc(m, s4, e.value)
+                            if src.static is not None:
+                                c2 = cur
+                                for it_ in src.static:
+                                    c2 = VListB(z3.Store(c2.arr, c2.n, self.toVal(it_, s4)), c2.n + 1)
+                                nxt.append((c2, s4))
+                                continue
+                            if src.keep is not None:
+                                raise OutOfSubset('starred filtered source', node)
+                            i = z3.Int('i!sd')
+                            s0 = State(dict(s4.env), [])
+                            ev = self.toVal(src.at(i - cur.n, s0), s0)
+                            arr = z3.Lambda([i], z3.If(i < cur.n, z3.Select(cur.arr, i), ev))
+                            s4.add(src.n >= 0)
+                            nxt.append((VListB(arr, cur.n + src.n), s4))
+                results = nxt
+            out = []
+            for r, s2 in results:
+                if isinstance(r, Raised) or is_list:
+                    out.append((r, s2))
                 else:
-                    items.append(v)
-            return [(VTuple(tuple(items), is_list), s)]
+                    t = th.mk_tuple(r.arr, r.n)
+                    s2.add(th.vlen(t) == r.n, th.sq_arr(t) == r.arr, th.isc('tuple')(t), t != th.NoneV)
+                    out.append((VVal(t, fresh=True, kind='seq'), s2))
+            return out
         return self.bind(self.evs([e.value if isinstance(e, ast.Starred) else e for e in node.elts], st), k)
